@@ -618,6 +618,9 @@ def fam_cluster(tier, base):
     rd = verif.tlc("MC_ClusterCreate", "MC_ClusterCreate_reccrash.cfg", timeout=3000)
     if rd.error != "invariant:RecoveredClean":
         raise Broken("ClusterCreate with a crash during recovery: %s" % rd.error)
+    # ... and the candidate repair (the created-workload handler ends by repairing the node's usage from the records) makes
+    # recovery clean again with up to two crashes of the recovering instance
+    verif.model_check("MC_ClusterCreate", "MC_ClusterCreate_reccrash_repaired.cfg", timeout=3000)
     inputs, trace = base + ".in.ndjson", base + ".trace.ndjson"
     every = 4 if q else 2
     sel = []
